@@ -608,7 +608,7 @@ impl LineBuffer {
                     .grapheme_indices(true)
                     .nth(column.saturating_sub(offset) as usize);
 
-                self.pos = gidx.map_or(off, |(idx, _)| dest_start + idx); // if there's no enough columns
+                self.pos = gidx.map_or(dest_end, |(idx, _)| dest_start + idx); // if there's no enough columns
                 true
             }
             None => false,
